@@ -1,6 +1,6 @@
 (* C20 - the boolean tests used by the holds checkers of Check.v decide the propositions of Spec.v. *)
 From Coq Require Import String List Bool Arith ZArith QArith Qcanon Lqa Lia.
-From AL Require Import Base.CaseLib C20.Model C20.Spec C20.Check C20.Lib C20.ProofsAmdf.
+From AL Require Import Base.CaseLib C20.Model C20.Spec C20.Check C20.Lib C20.ProofsAmdf C20.ProofsMav C20.ProofsZc.
 Import ListNotations.
 Open Scope Qc_scope.
 
@@ -84,3 +84,21 @@ Proof.
   apply (res_eqb_spec _ (list_eqb_spec _ eout_eqb_spec)) in H1.
   rewrite H1, H2. destruct (ev_s c); reflexivity.
 Qed.
+
+(* the linear-time checker of the long-run family demands exactly what holds_multi demands *)
+Lemma long_holds1_eq t zero xs obs : long_holds1 t zero xs obs = multi_holds1 t zero xs obs.
+Proof.
+  destruct t; cbn [long_holds1 multi_holds1]; try reflexivity.
+  - rewrite ProofsZc.zcross_eq_spec. reflexivity.
+  - rewrite ProofsMav.acc_go0_spec. reflexivity.
+Qed.
+
+Lemma all2g_ext {A B} (f g : A -> B -> bool) : (forall a b, f a b = g a b) ->
+  forall l1 l2, all2g f l1 l2 = all2g g l1 l2.
+Proof.
+  intro H. induction l1 as [|a l1 IH]; intros [|b l2]; cbn [all2g]; try reflexivity.
+  rewrite H, IH. reflexivity.
+Qed.
+
+Lemma holds_long_eq c : holds_long c = holds_multi c.
+Proof. unfold holds_long, holds_multi. apply all2g_ext. intros p o. apply long_holds1_eq. Qed.
